@@ -84,6 +84,7 @@ impl<'a> TrieEntryIter<'a> {
 
 // R11: `impl Iterator for TrieEntryIter { fn next }` verified as an inherent fn
 //@extract sudachi/src/dic/lexicon/trie.rs :: impl<'a> Iterator for TrieEntryIter<'a> :: fn next
+//@  twin
 //@  rw R11 1 custom
 //@  | Option<Self::Item>
 //@  > Option<TrieEntry>
